@@ -3,6 +3,7 @@
 package c17
 
 import (
+	"bytes"
 	"encoding/json"
 	"fmt"
 	"reflect"
@@ -314,6 +315,19 @@ func exec(c *Case, s *session) result {
 	if c.Dir == "m" {
 		v := findM(c.Type).Build(c.Pos)
 		r.panicv = rt.Guard(func() { r.out, r.err = jsonv2.Marshal(v, s.opts...) })
+		if r.panicv == nil && r.err == nil {
+			// the same call through a writer delivers the same bytes (user code
+			// that makes nested calls on the encoder must not change what is flushed)
+			st2 := &state{c: c, leaves: s.leaves, callerOpts: s.joined, marshalers: s.ms, unmarshals: s.us}
+			cur = st2
+			var bb bytes.Buffer
+			var werr error
+			v2 := findM(c.Type).Build(c.Pos)
+			if p := rt.Guard(func() { werr = jsonv2.MarshalWrite(&bb, v2, s.opts...) }); p == nil && werr == nil && !bytes.Equal(bb.Bytes(), r.out) {
+				st.flag(fmt.Sprintf("MarshalWrite delivered %q where Marshal returns %q", bb.Bytes(), r.out))
+			}
+			cur = st
+		}
 	} else {
 		root := findU(c.Type).Build(c.Pos)
 		_, doc := modelUnmarshal(c, findU(c.Type).Recv)
